@@ -1133,6 +1133,13 @@ def newcomer_stored_first(ctx, adt):
     return None
 
 
+def _rooted_in_dashmap(body, place):
+    """is the place a component of an entry reached through a DashMap reference?"""
+    e = Expr(body).place(place)
+    root, names = field_path(e)
+    return root[0] == 'call' and root[1].startswith(N.DM)
+
+
 def check_frequency_shapes(run, ctx):
     """C08-S1 new entries start at zero; increment_frequency adds exactly one; C06-S1 birth time written at store only"""
     core = ctx.core
@@ -1215,7 +1222,7 @@ def check_frequency_shapes(run, ctx):
             for st in bl['stmts']:
                 if st['k'] == 'assign':
                     proj = [e for e in (st['dst'].get('proj') or []) if e != 'deref']
-                    if proj and isinstance(proj[-1], dict) and proj[-1].get('on') == 'tuple' and proj[-1].get('name') == '1' and 'dashmap' in body.local_ty(st['dst']['l']):
+                    if proj and isinstance(proj[-1], dict) and proj[-1].get('on') == 'tuple' and proj[-1].get('name') == '1' and _rooted_in_dashmap(body, st['dst']):
                         run.bad('C06-S1', body.name + '/async-birth-rewritten', 'the stored timestamp of an async entry is overwritten in %s' % body.name, site='%s (%s)' % (body.name, body.loc(bi)))
     return n
 
@@ -1245,18 +1252,18 @@ def check_lookup_by_key(run, ctx):
                     if st['k'] == 'assign' and 'agg' in st['rv'] and isinstance(st['rv']['agg'], dict) and st['rv']['agg'].get('adt') == N.OPTION and st['rv']['agg'].get('variant') == 'Some':
                         if parse(x.local_ty(st['dst']['l'])).text.startswith(N.OPTION + '<R>') or True:
                             somes.append((x, bi, ex.operand(st['rv']['ops'][0])))
-        if len(look) != 1:
-            probs.append('%d store lookups' % len(look))
+        if len(look) < 1:
+            probs.append('no store lookup')
         else:
-            x, b, t, ex = look[0]
             se = SpecEffects(ctx.prog, {})
-            kr = se.key_root(x, t['args'][1])
             own = None
             for i in range(1, get.arg_count + 1):
                 if get.local_ty(i) == '&str':
                     own = (get.id, i)
-            if kr != own or own is None:
-                probs.append('the store is searched under %s, not under the requested key' % show(ex.operand(t['args'][1])))
+            for (x, b, t, ex) in look:
+                kr = se.key_root(x, t['args'][1])
+                if kr != own or own is None:
+                    probs.append('the store is searched under %s, not under the requested key' % show(ex.operand(t['args'][1])))
             # every Some(..) built of the value type is a clone of the looked-up entry's value
             vals = [(xx, bi, e) for (xx, bi, e) in somes if e[0] == 'call' and e[1] == N.CLONE or True]
             good = 0
